@@ -46,7 +46,7 @@ def main():
             classes = [l.split("violation class=")[1][:200] for l in p.stdout.splitlines() if "violation class=" in l]
             results[i] = {"property": prop, "tier": tier, "exit": p.returncode, "caught": p.returncode == 1, "classes": classes, "wall_s": round(time.time() - t0, 1),
                           "repo_head": sh("git -C /repo rev-parse --short HEAD").stdout.strip()}
-            print(i, results[i]["caught"], results[i]["wall_s"], classes[:1], flush=True)
+            print(i, results[i]["caught"], "exit", results[i]["exit"], results[i]["wall_s"], classes[:1], flush=True)
             for l in p.stdout.splitlines():
                 if l.startswith("VIOLATION"):
                     f = l.split("replay=")[1].strip()
